@@ -236,6 +236,7 @@ pub fn feature_modules() -> Vec<(&'static str, String)> {
         m("inline-type-values", "v1 INTEGER (0..10) ::= 5 v2 BIT STRING { a(0), b(2) } ::= { b } v6 INTEGER { one(1), two(2) } ::= two v7 OCTET STRING (SIZE (2)) ::= 'ABCD'H v8 IA5String (SIZE (1..5)) ::= \"abc\" v9 SET OF BOOLEAN ::= { TRUE }"),
         m("inline-constructed-type-values", "v3 ENUMERATED { x, y } ::= y v4 CHOICE { a INTEGER, b NULL } ::= a:1"),
         m("names-differing-by-case-or-hyphen", "S1 ::= SEQUENCE { foo-bar INTEGER, fooBar BOOLEAN } Foo-Bar ::= INTEGER FooBar ::= BOOLEAN val-one INTEGER ::= 1 valOne INTEGER ::= 2"),
+        m("oid-of-named-type", "ID ::= OBJECT IDENTIFIER ds ID ::= { joint-iso-itu-t ds(5) } module ID ::= { ds 1 } Oid2 ::= OBJECT IDENTIFIER base Oid2 ::= { iso 3 } ext Oid2 ::= { base 6 1 } plain OBJECT IDENTIFIER ::= { base 7 } deeper OBJECT IDENTIFIER ::= { ext 2 }"),
         m("default-names", "PDU-Header ::= SEQUENCE { version INTEGER DEFAULT 1, flag BOOLEAN DEFAULT TRUE } X-Y ::= SEQUENCE { a INTEGER (0..7) DEFAULT 0 } Ab-CD-e ::= SET { a BOOLEAN DEFAULT FALSE } UE-Capability ::= SEQUENCE { supported BOOLEAN DEFAULT TRUE, n INTEGER }"),
         m("default-of", "Sd ::= SEQUENCE { tail SET OF BOOLEAN DEFAULT { TRUE }, head SEQUENCE OF INTEGER DEFAULT { 1, 2 }, none SEQUENCE OF BOOLEAN DEFAULT { } }"),
         m("constraint-ops", "A ::= INTEGER (0..10 ^ 5..20) B ::= INTEGER (1 | 3 | 5) C ::= INTEGER (0..10 EXCEPT 5) D ::= INTEGER (ALL EXCEPT 0) E ::= INTEGER (0..100)(10..20) F ::= INTEGER (0..10 UNION 20..30) G ::= INTEGER (0..10 INTERSECTION 5..20)"),
